@@ -75,6 +75,28 @@ type OnlyBoolean struct{ B bool }
 
 func (o OnlyBoolean) Boolean() bool { return o.B }
 
+// CustomSafe is a SafeValue implementation that is not the library's own.
+type CustomSafe struct {
+	V     interface{}
+	Types []string
+}
+
+func (c CustomSafe) Value() stick.Value { return c.V }
+func (c CustomSafe) IsSafe(typ string) bool {
+	for _, t := range c.Types {
+		if t == typ {
+			return true
+		}
+	}
+	return false
+}
+func (c CustomSafe) SafeFor() []string { return c.Types }
+
+// KStr is a defined string type (map keys and method parameters).
+type KStr string
+
+func (p Person) Named(k KStr) string { return "named:" + string(k) }
+
 // Plain implements none of the interfaces.
 type Plain struct{ X int }
 
@@ -150,6 +172,8 @@ func Build(v sb.V) interface{} {
 		return p.Interface()
 	case "safe":
 		return stick.NewSafeValue(Build(v.E[0]), v.TS...)
+	case "customsafe":
+		return CustomSafe{V: Build(v.E[0]), Types: v.TS}
 	case "stringer":
 		return OnlyStringer{v.S}
 	case "ptrstringer":
@@ -296,6 +320,8 @@ func elemType(t string) reflect.Type {
 		return reflect.TypeOf(float64(0))
 	case "str", "string":
 		return reflect.TypeOf("")
+	case "kstr":
+		return reflect.TypeOf(KStr(""))
 	case "bool":
 		return reflect.TypeOf(false)
 	case "person":
@@ -319,6 +345,10 @@ func setConv(dst reflect.Value, x interface{}) {
 	rv := reflect.ValueOf(x)
 	if rv.Type().AssignableTo(dst.Type()) {
 		dst.Set(rv)
+		return
+	}
+	if rv.Kind() == reflect.String && dst.Kind() == reflect.String {
+		dst.Set(rv.Convert(dst.Type()))
 		return
 	}
 	if rv.Type().ConvertibleTo(dst.Type()) && rv.Kind() != reflect.String && dst.Kind() != reflect.String {
